@@ -8,7 +8,7 @@ OptimalPauliCompiler.extend_left, _left_factor_from_sequence, _case3_best_reorde
 NOT translated, and nothing is assumed about them: SubsystemCompiler.subsystem_compiler, left_map_over_a,
 OptimalPauliCompiler._candidate_decompositions, _all_interleavings_preserving, _all_interleavings_preserving4.  Every call of one of
 these reads the next answer of an INPUT STREAM (parameter orc_ : list oans): a list of strings, a list of lists, a list of pairs, or
-an exception.  An answer of the wrong shape leaves the model (NonInt), an exhausted stream is OutOfFuel.  A translated callee that itself
+an exception.  An answer of the wrong shape leaves the model (NonInt); an exhausted stream is the exception 'helper answers exhausted' (so that OutOfFuel means one thing only: a while loop of the translated code ran longer than its fuel).  A translated callee that itself
 consults the stream (_case3_best_reordering) is handed a sub-stream (answer OSub).  The refinement theorems quantify over all streams:
 whatever those five functions return or raise, a sequence that compile returns has passed the source's own nested-commutator check.
 (A generator answer is a list: an exception in the middle of an iteration is an exception of compile and returns nothing.)
@@ -462,7 +462,7 @@ class SFn:
             _, _, g = self.expr(a, env, nar); gs += g
         if v.keywords: bad(v, "keyword arguments")
         rz = "Raised e_" if on_raise is None else on_raise
-        return self.guard(gs, "(match v_orc_ with [] => OutOfFuel | a_ :: tl_ => let v_orc_ := tl_ in match a_ with %s r_ => %s | ORaise e_ => %s | _ => NonInt end end)" % (cons, on_value("r_"), rz)), t
+        return self.guard(gs, "(match v_orc_ with [] => Raised (EUser \"helper answers exhausted\"%%string) | a_ :: tl_ => let v_orc_ := tl_ in match a_ with %s r_ => %s | ORaise e_ => %s | _ => NonInt end end)" % (cons, on_value("r_"), rz)), t
 
     def block(self, stmts, env, nar, k):
         """-> (coq outcome text, env after) ; k = continuation text or None"""
@@ -681,7 +681,7 @@ class SFn:
         a = " ".join(cs)
         if fn.uses_orc:
             self.uses_orc = True
-            return "(match v_orc_ with [] => OutOfFuel | a_ :: tl_ => let v_orc_ := tl_ in match a_ with OSub sub_ => (bindr (%s %s sub_) (fun r_ => %s)) | _ => NonInt end end)" % (fn.coq, a, kont("r_"))
+            return "(match v_orc_ with [] => Raised (EUser \"helper answers exhausted\"%%string) | a_ :: tl_ => let v_orc_ := tl_ in match a_ with OSub sub_ => (bindr (%s %s sub_) (fun r_ => %s)) | _ => NonInt end end)" % (fn.coq, a, kont("r_"))
         return "(bindr (%s %s) (fun r_ => %s))" % (fn.coq, a, kont("r_"))
 
     def dict_ctype(self, t): return "(list (%s * %s))" % (ctype(t[1]), ctype(t[2]))
